@@ -235,12 +235,15 @@ Section PathStr.
         let with_first (first : str) (need_slice : bool) :=
           lit "[" ++ join (lit ",") (first :: items) ++ lit "]" ++ (if need_slice then lit ".slice(1)" else []) in
         let failed := lit "[]" in   (* write_items returned early: "[" then "]" *)
+        (* the path variable of a loop item is null at run time when the chosen list has no data path *)
+        let nullable (name : str) (t : str) := lit "(" ++ name ++ lit "?" ++ t ++ lit ":null)" in
         match model with
         | Some true =>
             match h with
             | HIdent s => with_first (lit_str s) false
             | HScope i => match sv_lv (scope_nth scopes i) with
-                          | LvVar name true => with_first (lit "..." ++ name) true
+                          | LvVar name true => nullable name (with_first (lit "..." ++ name) true)
+                          | LvVar name false => nullable name failed
                           | _ => failed
                           end
             | HCond _ _ _ => lit "[" ++ join (lit ",") items ++ lit "]"
@@ -251,7 +254,7 @@ Section PathStr.
             | HIdent s => with_first (lit "0," ++ lit_str s) false
             | HScope i => match sv_lv (scope_nth scopes i) with
                           | LvInvalid => failed
-                          | LvVar name _ => with_first (lit "..." ++ name) false
+                          | LvVar name _ => nullable name (with_first (lit "..." ++ name) false)
                           | LvScript abs => with_first (lit "1," ++ lit_str abs) false
                           | LvInline path m => with_first (lit "2," ++ lit_str path ++ lit "," ++ lit_str m) false
                           end
